@@ -209,6 +209,19 @@ int encode_operands(struct instr *instrc) {
     }
     instrc->rd_offset = instrc->opd[0].reg & VALUE_MASK;
   }
+  // movzx from a 16-bit source is the next row (0f b7); the 'word' keyword of a
+  // memory source must not become an operand size prefix of the destination
+  if (NAME(instrc->key, movzx)) {
+    unsigned int src_mode = instrc->opd[1].reg & MODE_MASK;
+    if (instrc->mem_disp ? instrc->keyword.is_word
+                         : (src_mode == reg16 || src_mode == ext16)) {
+      instrc->key++;
+      if (instrc->keyword.is_word) {
+        instrc->keyword.is_word = false;
+        instrc->keyword.is_dword = true;
+      }
+    }
+  }
   // set 'byte' keyword
   if (instrc->mem_disp)
     auto_set_byte(instrc);
